@@ -24,4 +24,22 @@ PROPS = {
             "trichotomy assumes int/uint->float conversions never produce NaN (FloatOps.ConvNoNaN)",
         ],
     },
+    "C06": {
+        "lean": ["UgoVerif.Props.C06"],
+        "gen": [],
+        "streams": ["vmfail", "vmtrace"],
+        "required_theorems": ["step_VInv", "loop_VInv", "throw_fuel_adequate", "recovery_total",
+                              "delivered_or_returned", "Run_no_panic", "reusable"],
+        "trusted": [
+            "hand model UgoVerif/VM/{Types,Base,Step,Run}.lean of vm.go (every Go index/slice/nil-dereference/assertion an explicit panic branch keeping the partial state), tied to the implementation by the lock-step streams `vmtrace` and `vmfail` (real compiler's bytecode, H1 trace hook: frameIndex, ip, sp, #handlers, opcode per instruction)",
+            "Std.Do (mvcgen) Hoare-triple framework of the Lean distribution: proofs are kernel-checked terms, only the standard axioms occur",
+        ],
+        "assumptions": [
+            "Go fatal errors (real goroutine-stack exhaustion, out of memory) and panics on goroutines started by callbacks are outside Run and outside the model",
+            "host objects (ugo.Function, user Object implementations), builtins other than len/typeName/append/:makeArray, STOREMODULE of containers, string iteration and multi-key map iteration are `unsupported` in the model: for them the recovery path is covered by the theorems (a panic at ANY point leaves a VInv state) and the behaviour only by the vmfail oracle (panicking Go callbacks, nil results, Invoker)",
+            "the trace bookkeeping of throw (getSourcePos, SourcePos, addTrace, debugStack, fmt.Errorf) has no panic site and is not modelled",
+            "MainWF (NumLocals <= 2048, NumParams <= NumLocals for the main function) is what the compiler guarantees; hand-made bytecode violating it panics in initLocals before recover is armed",
+        ],
+        "partial": [],
+    },
 }
